@@ -269,20 +269,26 @@ def subMulWordSameLen (W : Nat) (ws : List Nat) (mult : Nat) (rhs : List Nat) : 
 def highestDword (W : Nat) (ws : List Nat) : Nat :=
   ws.getD (ws.length - 2) 0 + 2 ^ W * ws.getD (ws.length - 1) 0
 
-/-- `div_rem_highest_word(lhs_top, lhs_lo, rhs, fast_div_rhs_top)`: one quotient word; returns
-    (q, new lhs_lo).  `dtop` = top two words of the normalised `rhs`.  The two trailing
-    `debug_assert!`s are error branches. -/
-def divRemHighestWord (W : Nat) (lhsTop : Nat) (lhsLo rhs : List Nat) (dtop : Nat) :
-    Except PanicKind (Nat × List Nat) := do
-  let n := rhs.length
-  let len := lhsLo.length
-  let rhsTop := rhs.getD (n - 1) 0
+/-- first half of `div_rem_highest_word`: the quotient estimate
+    `q = floor([lhs0, lhs1, lhs2] / [rhs0, rhs1])`, or `Word::MAX` when `lhs_top >= rhs_top` -/
+def qEstimate (W : Nat) (lhsTop : Nat) (lhsLo rhs : List Nat) (dtop : Nat) : Except PanicKind Nat := do
+  let rhsTop := rhs.getD (rhs.length - 1) 0
   let hd := highestDword W lhsLo
   let lhs2 := hd % 2 ^ W
   let lhs1 := hd / 2 ^ W
   let lhs01 := lhs1 + 2 ^ W * lhsTop
-  let q ← if lhsTop < rhsTop then (do let (q, _) ← div3by2 W dtop lhs2 lhs01; pure q)
-          else pure (2 ^ W - 1)
+  if lhsTop < rhsTop then do
+    let (q, _) ← div3by2 W dtop lhs2 lhs01
+    pure q
+  else pure (2 ^ W - 1)
+
+/-- second half of `div_rem_highest_word`: subtract `q·rhs` from the top `n` words of `lhs_lo`,
+    add `rhs` back once if the estimate was too large.  The two `debug_assert!`s are error
+    branches. -/
+def correctStep (W : Nat) (lhsTop : Nat) (lhsLo rhs : List Nat) (q : Nat) :
+    Except PanicKind (Nat × List Nat) :=
+  let n := rhs.length
+  let len := lhsLo.length
   let lo := lhsLo.take (len - n)
   let win := lhsLo.drop (len - n)
   let (win1, borrow) := subMulWordSameLen W win q rhs
@@ -290,9 +296,16 @@ def divRemHighestWord (W : Nat) (lhsTop : Nat) (lhsLo rhs : List Nat) (dtop : Na
     let (win2, carry) := addSameLen W win1 rhs 0
     if carry = 0 then .error (assertErr "div_rem_highest_word: debug_assert!(carry)")
     else if borrow - 1 ≠ lhsTop then .error (assertErr "div_rem_highest_word: borrow == lhs_top")
-    else pure (q - 1, lo ++ win2)
+    else .ok (q - 1, lo ++ win2)
   else if borrow ≠ lhsTop then .error (assertErr "div_rem_highest_word: borrow == lhs_top")
-  else pure (q, lo ++ win1)
+  else .ok (q, lo ++ win1)
+
+/-- `div_rem_highest_word(lhs_top, lhs_lo, rhs, fast_div_rhs_top)`: one quotient word; returns
+    (q, new lhs_lo).  `dtop` = top two words of the normalised `rhs`. -/
+def divRemHighestWord (W : Nat) (lhsTop : Nat) (lhsLo rhs : List Nat) (dtop : Nat) :
+    Except PanicKind (Nat × List Nat) := do
+  let q ← qEstimate W lhsTop lhsLo rhs dtop
+  correctStep W lhsTop lhsLo rhs q
 
 /-- the `while rem.len() > n` loop of `simple::div_rem_in_place`; `k` = number of quotient words
     still to produce, `lhs` = current remainder window of `n + k` words.  Returns
